@@ -1638,6 +1638,39 @@ func init() {
 		m.both = true
 		return true
 	})
+	mut("sync_sig_old_fork_version", "sync", func(m *mctx) bool {
+		// the twin: a later slot of the first epoch of a fork — the aggregate is over a slot of the NEW fork, so its domain is
+		// the new version; here it is signed under the previous one
+		fe := m.p.lastForkEpoch()
+		if m.p.Fork < Altair || m.p.Epoch != fe || m.c.isForkStart(m.p.Slot) || m.p.Slot.Previous() < common.Slot(fe)*m.c.Spec.SLOTS_PER_EPOCH {
+			return false
+		}
+		sa := &m.p.B.Sync
+		n := uint64(m.c.Spec.SYNC_COMMITTEE_SIZE)
+		ss := m.p.A.(common.SyncCommitteeBeaconState)
+		scv, _ := ss.CurrentSyncCommittee()
+		pkv, _ := scv.Pubkeys()
+		pubs, _ := pkv.Flatten()
+		var keys []KeyNum
+		for i := uint64(0); i < n; i++ {
+			if sa.SyncCommitteeBits.GetBit(i) {
+				k, _ := KeyByPub(pubs[i])
+				keys = append(keys, k)
+			}
+		}
+		if len(keys) == 0 {
+			return false
+		}
+		fk, _ := m.p.A.Fork()
+		if fk.PreviousVersion == fk.CurrentVersion {
+			return false
+		}
+		root, _ := common.GetBlockRootAtSlot(m.c.Spec, m.p.A, m.p.Slot.Previous())
+		dom := common.ComputeDomain(common.DOMAIN_SYNC_COMMITTEE, fk.PreviousVersion, m.c.GVR)
+		sa.SyncCommitteeSignature = m.c.BLS.Sign(keys, common.ComputeSigningRoot(root, dom))
+		m.both = true
+		return true
+	})
 	// ---------- execution payload ----------
 	hasPayload := func(m *mctx) bool {
 		return m.p.Fork >= Capella || (m.p.Fork == Bellatrix && m.p.B.Payload.BlockHash != (common.Root{}))
